@@ -250,11 +250,9 @@ func (h *hist) joinCmd(mode string) *pdkg.DKGCommand {
 
 // mutatePacket applies one single-field mutation to a captured (signed) packet, keeping the
 // original signature (so every mutation of a signed term must be refused).
-func (h *hist) mutatePacket(p *pdkg.GossipPacket) (*pdkg.GossipPacket, string) {
-	q := proto.Clone(p).(*pdkg.GossipPacket)
-	t := q.GetProposal()
+func mutationsFor(q *pdkg.GossipPacket) []string {
 	muts := []string{"md-addr", "md-sig-flip", "md-sig-short", "md-nil", "md-beacon"}
-	if t != nil {
+	if q.GetProposal() != nil {
 		muts = append(muts, "t-threshold", "t-epoch", "t-timeout", "t-catchup", "t-period", "t-scheme", "t-genesis", "t-seed",
 			"t-beacon", "t-leader-nil", "t-leader-key", "t-joiner-key", "t-remainer-key", "t-remainer-sig", "t-drop-last", "t-add-leaver", "t-swap-lists")
 	}
@@ -267,8 +265,22 @@ func (h *hist) mutatePacket(p *pdkg.GossipPacket) (*pdkg.GossipPacket, string) {
 	if q.GetAbort() != nil {
 		muts = append(muts, "b-reason")
 	}
+	return muts
+}
+
+func (h *hist) mutatePacket(p *pdkg.GossipPacket) (*pdkg.GossipPacket, string) {
+	muts := mutationsFor(p)
 	m := muts[h.rng.Intn(len(muts))]
+	return h.applyMutation(p, m), m
+}
+
+func (h *hist) applyMutation(p *pdkg.GossipPacket, m string) *pdkg.GossipPacket {
+	q := proto.Clone(p).(*pdkg.GossipPacket)
+	t := q.GetProposal()
 	other := h.w.ids[h.rng.Intn(len(h.w.ids))]
+	for q.GetMetadata() != nil && other.part.Address == q.GetMetadata().GetAddress() {
+		other = h.w.ids[h.rng.Intn(len(h.w.ids))] // a real alteration: somebody else than the signer
+	}
 	switch m {
 	case "md-addr":
 		q.Metadata.Address = other.part.Address
@@ -333,7 +345,19 @@ func (h *hist) mutatePacket(p *pdkg.GossipPacket) (*pdkg.GossipPacket, string) {
 	case "b-reason":
 		q.GetAbort().Reason = "because"
 	}
-	return q, m
+	return q
+}
+
+// sweep delivers every single-field alteration of a genuinely signed packet to node i, one after the
+// other (each must be refused, so the node's state stays put), and finally the genuine packet.
+func (h *hist) sweep(i int, p *pdkg.GossipPacket, what string, from int) {
+	if p == nil {
+		return
+	}
+	for _, m := range mutationsFor(p) {
+		h.packet(i, h.applyMutation(p, m), what+":mutated:"+m, h.role(i, from))
+	}
+	h.packet(i, p, what, h.role(i, from))
 }
 
 // forged builds a control packet of the given kind over the target's current terms, claiming to
